@@ -67,6 +67,31 @@ def install_hooks():
     for meth in ("post", "post_boolean", "post_queue", "post_relay"):
         wrap_post(meth)
 
+    # external eject confirmation (confirm_eject_type switch / event) and incoming balls that timed out
+    from mpf.devices.ball_device.incoming_balls_handler import IncomingBall
+
+    def wrap_ib(meth, tag):
+        orig = getattr(IncomingBall, meth)
+
+        def wrapped(self, *a, **kw):
+            r = _REC["cur"]
+            if r is not None and r.rig is not None and self._source.machine is r.rig.machine:
+                if tag != "X" or not (a[0] if a else kw.get("future")).cancelled():
+                    r.log.append([tag, self._source.name, self._target.name])
+            return orig(self, *a, **kw)
+        setattr(IncomingBall, meth, wrapped)
+    wrap_ib("add_external_confirm_switch", "XA")
+    wrap_ib("add_external_confirm_event", "XA")
+    wrap_ib("_external_confirm", "X")
+    orig_lost = BallDevice.lost_incoming_ball
+
+    def lost_incoming_ball(self, source):
+        r = _REC["cur"]
+        if r is not None and r.rig is not None and self.machine is r.rig.machine:
+            r.log.append(["L", self.name, source.name, self.incoming_balls_handler.get_num_incoming_balls()])
+        return orig_lost(self, source)
+    BallDevice.lost_incoming_ball = lost_incoming_ball
+
     wrap(BallDevice, TRACK_DEV, "dev")
     wrap(Playfield, TRACK_PF, "pf")
     wrap(BallController, {"num_balls_known": "known"}, "bc")
@@ -91,7 +116,7 @@ def make_config(topo):
         sw[s] = {"number": str(30 + i)}
     bd = {
         "trough": {"ball_switches": ", ".join(dt["trough"]["sw"]), "eject_coil": "c_trough",
-                   "tags": "trough, home, drain",
+                   "tags": "trough, home" if "outhole" in dt else "trough, home, drain",
                    "eject_targets": "plunger", "eject_timeouts": "%dms" % topo["t_trough"],
                    "ball_missing_timeouts": "%dms" % (topo["t_trough"] + topo.get("miss_extra", 20000)),
                    "max_eject_attempts": topo.get("att_trough", 0)},
@@ -115,6 +140,25 @@ def make_config(topo):
             for i, s in enumerate(lk["sw"]):
                 sw[s] = {"number": str(20 + i)}
             bd["lock"]["ball_switches"] = ", ".join(lk["sw"])
+    if "outhole" in dt:
+        coils["c_outhole"] = {"number": "4"}
+        sw["s_outhole"] = {"number": "40"}
+        bd["outhole"] = {"ball_switches": "s_outhole", "eject_coil": "c_outhole", "tags": "drain",
+                         "eject_targets": "trough", "eject_timeouts": "%dms" % topo["t_outhole"],
+                         "ball_missing_timeouts": "%dms" % (topo["t_outhole"] + topo.get("miss_extra", 20000)),
+                         "max_eject_attempts": 0}
+    for d in topo.get("enable_coil", []):
+        if d in dt:     # EnableCoilEjector instead of PulseCoilEjector
+            coils[dt[d]["coil"]]["allow_enable"] = True
+            bd[d]["eject_coil_enable_time"] = "200ms"
+    for i, (d, v) in enumerate(dt.items()):
+        if v["confirm"] == "switch":
+            sw["s_%s_confirm" % d] = {"number": str(50 + i)}
+            bd[d]["confirm_eject_type"] = "switch"
+            bd[d]["confirm_eject_switch"] = "s_%s_confirm" % d
+        elif v["confirm"] == "event":
+            bd[d]["confirm_eject_type"] = "event"
+            bd[d]["confirm_eject_event"] = "verif_%s_confirmed" % d
     cfg = {
         "switches": sw, "coils": coils, "ball_devices": bd,
         "playfields": {"playfield": {"default_source_device": "plunger", "tags": "default"}},
@@ -147,14 +191,19 @@ def device_table(topo):
                      "target": topo.get("lock_to", "playfield"),
                      "coil": "c_lock", "timeout": topo["t_lock"], "att": topo.get("att_lock", 0), "trough": False,
                      "kind": topo.get("lock_kind", "switch")}
-    for d in t.values():
+    if topo.get("outhole"):
+        t["outhole"] = {"sw": ["s_outhole"], "target": "trough", "coil": "c_outhole", "timeout": topo["t_outhole"],
+                        "att": 0, "trough": False, "kind": "switch"}
+    for name, d in t.items():
         d["cap"] = len(d["sw"])
+        # how an eject is confirmed: by the target's count, or by a switch / an event the ball passes on its way
+        d["confirm"] = topo.get("confirm", {}).get(name, "target") if d["target"] != "playfield" else "target"
     for d, v in t.items():
         v["sources"] = [s for s, w in t.items() if w["target"] == d]
     return t
 
 
-DEV_ID = {"trough": 0, "plunger": 1, "lock": 2, "playfield": 9}
+DEV_ID = {"trough": 0, "plunger": 1, "lock": 2, "outhole": 3, "playfield": 9}
 
 
 # ------------------------------------------------------------------------------------------------
@@ -192,6 +241,11 @@ class World:
         self.sim_error = None
         self.game_events = []
         self.kicked = []        # [src, dst]: pulsed, the ball has not left its seat yet
+        # environment handlers of the queue event balldevice_<d>_ball_eject_attempt (a diverter that has to move, a show
+        # that has to finish): the k-th attempt of <d> is held for holds[d][k] ms
+        self.holds = {d: list(case.get("holds", {}).get(d, [])) for d in self.devs}
+        self.drain_dev = "outhole" if "outhole" in self.devs else "trough"
+        self.cdelay = self.topo.get("cdelay", 80)       # ms from leaving the device to its confirm switch / event
         self.ready_checked = {}
 
     # -- recording ----------------------------------------------------------------------------
@@ -243,6 +297,9 @@ class World:
             ev.add_handler(n, self._mk_handler(n), priority=1000000)
         if "lock" in self.devs:
             ev.add_handler("balldevice_lock_ball_enter", self._claim_handler, priority=5)
+        for d in self.devs:
+            if self.holds.get(d):
+                ev.add_handler("balldevice_%s_ball_eject_attempt" % d, self._mk_hold_handler(d), priority=3)
         if self.topo.get("game"):
             for n in ("ball_save_bs_saving_ball", "multiball_mb_started", "game_started", "game_ended",
                       "ball_started", "ball_ended"):
@@ -280,6 +337,17 @@ class World:
                                       g.balls_in_play if g else None])
         return handler
 
+    def _mk_hold_handler(self, d):
+        world = self
+
+        def handler(queue, **kwargs):
+            ms = world.holds[d].pop(0) if world.holds[d] else 0
+            if ms > 0:
+                world.log.append(["A", "hold", d, ms])
+                queue.wait()
+                world.at(ms, queue.clear)
+        return handler
+
     def _claim_handler(self, unclaimed_balls, **kwargs):
         if unclaimed_balls and self.claim and self.claim.pop(0):
             self.log.append(["A", "claim", "lock"])
@@ -295,6 +363,12 @@ class World:
             world.on_pulse(d)
             return orig(*a, **kw)
         hw.pulse = pulse
+        orig_enable = hw.enable
+
+        def enable(*a, **kw):       # EnableCoilEjector: the ball is pushed out while the coil is on
+            world.on_pulse(d)
+            return orig_enable(*a, **kw)
+        hw.enable = enable
 
     # -- physical world -----------------------------------------------------------------------
     def now(self):
@@ -358,9 +432,10 @@ class World:
         room = None
         info = {"target": tgt, "has_ball": self.count(d) > 0, "t": self.now_us(),
                 "state": self.rig.machine.ball_devices[d].state,
-                "transit": [list(x[:2]) for x in self.transit]}
+                "transit": [list(x[:2]) for x in self.transit],
+                "dev": {e: self.count(e) for e in self.devs}}
         if tgt != "playfield":
-            inbound = [x for x in self.transit if x[1] == tgt]
+            inbound = [x for x in self.transit if x[1] == tgt and x[0] != "playfield"]
             kicked = [x for x in self.kicked if x[1] == tgt]
             room = self.devs[tgt]["cap"] - self.count(tgt) - len(inbound) - len(kicked)
             # balls of OTHER sources that are on their way (or kicked) but which MPF has not yet registered as incoming
@@ -371,17 +446,23 @@ class World:
                 len([x for x in kicked if x[0] != d])
             own = [x for x in inbound if x[0] == d]
             info["room_without_own"] = room + len(own)
-            miss = v["timeout"] + self.topo.get("miss_extra", 20000)
-            for x in own:
-                # has MPF given up on this ball?  (a) a ball from the playfield sat in <d> (debounced) while this
-                # ball's eject was past its timeout: taken for the ball falling back; (b) ball_missing_timeout is over
-                fc_start = x[2] + v["timeout"] * 1000
+            for x in inbound:
+                # has MPF given up on this ball?  (a) a foreign ball sat in its source (debounced) while this ball's
+                # eject was past its timeout: taken for the ball falling back; (b) ball_missing_timeout is over
+                vo = self.devs[x[0]]
+                miss = vo["timeout"] + self.topo.get("miss_extra", 20000)
+                fc_start = x[2] + vo["timeout"] * 1000
                 foreign = any((lv is None or lv + 500000 >= fc_start) and ar + 500000 <= self.now_us() and
-                              ar >= x[2] - 600000 for ar, lv in self.visits[d])
-                if foreign or self.now_us() - x[2] >= (v["timeout"] + miss - 300) * 1000:
+                              ar >= x[2] - 600000 for ar, lv in self.visits[x[0]])
+                patience = (vo["timeout"] + miss - 300) if vo["confirm"] == "target" else (self.cdelay + miss - 50)
+                if foreign or self.now_us() - x[2] >= patience * 1000:
                     x[3] = True
             if own:
-                info["own_given_up"] = all(x[3] for x in own)
+                info["own_given_up"] = all(x[3] or x[4] for x in own)     # given up, or taken for arrived
+            # balls of OTHER sources which MPF has given up on (their entry is off the target's list) but which are
+            # physically still on their way
+            info["others_given_up"] = len([x for x in inbound if x[0] not in (d, tgt) and (x[3] or x[4])])
+            info["superseded_pf"] = any(x[4] == "pf" for x in inbound)
         info["room"] = room
         self.log.append(["C", d, self.snap(), info])
         if self.count(d) == 0:
@@ -417,14 +498,34 @@ class World:
                 self.at(f[3], self.pf_hit)
             return
         tid = self.now_us()
-        self.transit.append([d, dst, tid, False])
+        self.transit.append([d, dst, tid, False, False])
         self.seat_off(d, idx)
         self.at(f[2], self.ball_arrives, d, dst, None, tid)
+        if dst != d and self.devs[d]["confirm"] != "target":
+            self.at(min(self.cdelay, max(10, f[2] - 40)), self.confirm_pass, d)
+
+    def confirm_pass(self, d):
+        """the ball <d> has ejected passes d's confirm switch (or whatever posts its confirm event)"""
+        self.log.append(["S", "confirm", d, d, self.now_us()])
+        if self.devs[d]["confirm"] == "switch":
+            self.sw("s_%s_confirm" % d, 1)
+            self.sw("s_%s_confirm" % d, 0)
+        else:
+            self.rig.machine.events.post("verif_%s_confirmed" % d)
 
     def ball_arrives(self, src, dst, dwell=None, tid=None):
         for x in self.transit:
             if x[0] == src and x[1] == dst and (tid is None or x[2] == tid):
                 self.transit.remove(x)
+                if (x[3] or src == "playfield") and src != dst and dst in self.devs and \
+                        self.devs[dst]["kind"] == "switch":
+                    # MPF had given up on this ball (or it rolls in from the playfield, unseen); now that it arrives it is
+                    # matched with the next expected ball of the target: that ball's entry is consumed although it is
+                    # physically still on its way
+                    for y in self.transit:
+                        if y[1] == dst and y[0] not in ("playfield", dst) and not y[4]:
+                            y[4] = "pf" if src == "playfield" else True
+                            break
                 break
         free = [i for i, x in enumerate(self.occ[dst]) if not x]
         if not free:
@@ -438,8 +539,10 @@ class World:
         if src != dst:
             self.delivered[dst] = self.delivered.get(dst, 0) + 1
         self.seat_on(dst, free[0])
-        if src == "playfield":
+        if src != dst:
+            # a ball that is foreign to dst's own eject (from the playfield or from another device) now sits in dst
             self.visits[dst].append([self.now_us(), None])
+        if src == "playfield":
             if dwell is not None:
                 self.at(dwell, self.visit_ends, dst, free[0], self.now_us())
 
@@ -470,7 +573,7 @@ class World:
             return      # physically impossible: no room (an entrance-counted device: the ball bounces off)
         self.loose -= 1
         tid = self.now_us()
-        self.transit.append(["playfield", dst, tid, False])
+        self.transit.append(["playfield", dst, tid, False, False])
         self.log.append(["S", "leave", "playfield", dst, self.now_us()])
         self.at(transit_ms, self.ball_arrives, "playfield", dst, dwell, tid)
 
@@ -510,11 +613,13 @@ class World:
             self.log.append(["A", "collect"])
             m.ball_controller.collect_balls()
         elif k == "drain":
-            self.loose_to("trough", a[1])
+            self.loose_to(self.drain_dev, a[1])
         elif k == "visit":          # a ball drops into the trough and bounces out again after a[2] ms
-            self.loose_to("trough", a[1], a[2])
+            self.loose_to(self.drain_dev, a[1], a[2])
         elif k == "lockshot":
             self.loose_to("lock", a[1])
+        elif k == "shot":           # a loose ball rolls into device a[1] (e.g. back into the plunger lane)
+            self.loose_to(a[1], a[2])
         elif k == "pfhit":
             self.pf_hit()
         elif k == "lockleak":
@@ -641,10 +746,15 @@ def gen_fault(rng, timeout_ms, to_pf, profile, miss_extra=20000):
     if r < 0.26:
         transit = timeout_ms + rng.choice([-200, 40, 300, 1500, 4000, timeout_ms + miss_extra + 700])
         return ["ok", leave, max(100, transit - leave), -1]
+    if r < 0.32:
+        # very late: 0.5 .. 1.5 x ball_missing_timeout after it left
+        miss = timeout_ms + miss_extra
+        return ["ok", leave, int(miss * rng.choice([0.5, 0.8, 1.02, 1.2, 1.5])) // 10 * 10 + 37, -1]
     return ["ok", leave, rng.choice([150, 300, 600, 1000, 1400]), -1]
 
 
-TEMPLATES = ["two_feeders", "entrance_overfill", "flicker_late", "multi_leak", "double_kick", "cap2_mid_eject"]
+TEMPLATES = ["two_feeders", "entrance_overfill", "flicker_late", "multi_leak", "double_kick", "cap2_mid_eject",
+             "held_attempt", "starved_request", "late_confirmed"]
 
 
 def _base_topo(rng, **kw):
@@ -652,7 +762,8 @@ def _base_topo(rng, **kw):
     t = {"trough_n": n, "balls": n, "plunger_k": 1, "lock_k": 0, "lock_kind": "switch", "lock_to": "playfield",
          "t_trough": rng.choice([3000, 5000]), "t_plunger": rng.choice([2000, 3000, 6000]),
          "t_lock": rng.choice([2000, 3000, 6000]), "att_trough": 0, "att_plunger": 0, "att_lock": 0,
-         "miss_extra": 20000, "loose": 0}
+         "miss_extra": 20000, "loose": 0, "outhole": 0, "t_outhole": rng.choice([2000, 3000]), "confirm": {},
+         "cdelay": rng.choice([60, 80, 100])}
     t.update(kw)
     return t
 
@@ -740,6 +851,71 @@ def gen_template(rng, profile):
                   "plunger": [["ok", rng.choice([50, 120]), 0, rng.choice([300, 700, 1500, -1])] for _ in range(8)],
                   "lock": [okpf() for _ in range(4)]}
         claims = [1, 0, 1, 0]
+    elif profile == "held_attempt":
+        # a handler of the queue event balldevice_<d>_ball_eject_attempt holds the eject back (diverter moving, show
+        # running); while it is held a ball from the playfield rolls back into the plunger lane, or the other source
+        # delivers: the readiness check must come AFTER the hold
+        two = rng.random() < 0.35
+        topo = _base_topo(rng, plunger_k=rng.choice([1, 1, 2]), lock_k=rng.choice([1, 2]) if two else 0,
+                          lock_to="plunger" if two else "playfield")
+        hold = rng.choice([1500, 2500, 4000, 6000])
+        hold2 = rng.choice([0, 0, 1000, 3000])
+        script = [[500, "add_ball"]]
+        if two:
+            script += [[rng.choice([4000, 5000]), "lockshot", rng.choice([300, 500])],
+                       [rng.choice([3000, 4000]), "add_ball"],
+                       [rng.choice([100, 300, max(100, hold - 900), max(100, hold - 300)]), "eject", "lock"]]
+            holds = {"trough": [0, hold], "plunger": [0, hold2], "lock": [rng.choice([0, 0, 800])]}
+        else:
+            for _ in range(topo["plunger_k"] - 1):
+                script.append([rng.choice([3000, 4000]), "add_ball"])
+            script += [[rng.choice([4000, 5000]), "add_ball"],
+                       [rng.choice([100, 300, max(100, hold - 1200), max(100, hold - 700), max(100, hold - 200)]), "shot",
+                        "plunger", rng.choice([150, 300, 500])]]
+            holds = {"trough": [0] * topo["plunger_k"] + [hold], "plunger": [0] * topo["plunger_k"] + [hold2, hold2]}
+        script += _tail(rng, topo)
+        faults = {"trough": [okdev() for _ in range(6)], "plunger": [okpf() for _ in range(8)],
+                  "lock": [okdev() if two else okpf() for _ in range(4)]}
+        claims = [1, 1, 1, 1]
+        return {"topo": topo, "script": script, "faults": faults, "claims": claims, "profile": profile, "holds": holds}
+    elif profile == "late_confirmed":
+        # outhole -> trough -> plunger: the drained ball passes the outhole's confirm switch / event and then dawdles
+        # beyond ball_missing_timeout; the timeout expires while the trough itself is mid-eject (it holds the lock the
+        # timeout handler needs) and the ball drops into the trough before that eject is over
+        n = rng.choice([2, 3, 4])
+        kind = rng.choice(["switch", "event"])
+        topo = _base_topo(rng, trough_n=n, balls=n, outhole=1, miss_extra=rng.choice([1500, 3000]), t_trough=5000,
+                          confirm={"outhole": kind}, plunger_k=rng.choice([1, 1, 2]))
+        miss_o = topo["t_outhole"] + topo["miss_extra"]
+        tr = rng.choice([200, 500])
+        back = rng.choice([300, 800, 1500, 2500])
+        over = rng.choice([100, 400, 900])
+        t_transit = min(4700, back + over + rng.choice([400, 900, 1600]))
+        script = [[500, "add_ball"], [rng.choice([4000, 5000]), "drain", tr],
+                  [max(100, tr + 570 + topo["cdelay"] + miss_o - back), "add_ball"]] + _tail(rng, topo)
+        faults = {"trough": [okdev(), ["ok", 50, t_transit, -1]] + [okdev() for _ in range(4)],
+                  "plunger": [okpf() for _ in range(8)], "lock": [],
+                  "outhole": [["ok", 50, topo["cdelay"] + miss_o + over, -1]] + [okdev() for _ in range(4)]}
+        claims = []
+    elif profile == "starved_request":
+        # two requests queued at once, the one of the device that comes FIRST in the handler order of
+        # balldevice_balls_available (the trough: it has no source devices) can never be served; then a ball that can
+        # serve the other one drains into the trough
+        n = rng.choice([2, 3, 4])
+        topo = _base_topo(rng, trough_n=n, balls=n)
+        script = []
+        for j in range(n):
+            script.append([500 if j == 0 else rng.choice([3500, 4500]), "add_ball"])
+        pair = [["request", "trough"], [rng.choice(["add_ball", "request_plunger"])]]
+        if pair[1] == ["request_plunger"]:
+            pair[1] = ["request", "plunger"]
+        rng.shuffle(pair)
+        script += [[rng.choice([4000, 5000])] + pair[0], [rng.choice([0, 200, 1500])] + pair[1],
+                   [rng.choice([500, 1500, 3000]), "drain", rng.choice([200, 500])]]
+        if rng.random() < 0.5:
+            script.append([rng.choice([300, 4000, 8000]), "drain", rng.choice([200, 500])])
+        faults = {"trough": [okdev() for _ in range(8)], "plunger": [okpf() for _ in range(10)], "lock": []}
+        claims = []
     elif profile == "save_twice":
         # real game: ball save with eject_delay, two balls in play (multiball), two drains close to each other
         topo = _base_topo(rng, game=1, save_delay=rng.choice([800, 1500, 2500]))
@@ -772,11 +948,25 @@ def gen_case(rng, tier, i, profile=None):
             "att_trough": rng.choice([0, 0, 0, 2, 3]), "att_plunger": rng.choice([0, 0, 0, 2, 4]),
             "att_lock": rng.choice([0, 0, 2]),
             "miss_extra": rng.choice([20000, 20000, 1500, 3000]),
-            "loose": 1 if rng.random() < 0.08 else 0}
+            "loose": 1 if rng.random() < 0.08 else 0,
+            "outhole": 1 if rng.random() < 0.25 else 0, "t_outhole": rng.choice([2000, 3000]),
+            "cdelay": rng.choice([60, 80, 100]), "confirm": {}}
+    for d in ("trough", "outhole", "lock"):
+        if rng.random() < 0.3:
+            topo["confirm"][d] = rng.choice(["switch", "event"])
+    if topo["lock_k"] and topo["lock_to"] == "plunger":
+        # two sources of one target: no external confirms there.  After the known two-source race an arriving ball is
+        # matched with the other source's entry; the confirmed entry left over times out at the idle target and
+        # lost_incoming_ball ends in "Failed to restore the path" (playfield.available_balls +1 without a -1 anywhere:
+        # the AVAILABLE balls then sum to known + 1, the counts stay right).  See NOTES.md, round 3.
+        topo["confirm"].pop("trough", None)
+        topo["confirm"].pop("lock", None)
+    topo["enable_coil"] = [d for d in ("plunger", "lock", "outhole") if rng.random() < 0.15]
     if topo["loose"] and topo["balls"] == n:
         topo["balls"] = n - 1
     acts = []
-    w = [("add_ball", 32), ("drain", 24), ("pfhit", 5), ("request", 5), ("collect", 3), ("wait", 6), ("visit", 3)]
+    w = [("add_ball", 32), ("drain", 24), ("pfhit", 5), ("request", 5), ("collect", 3), ("wait", 6), ("visit", 3),
+         ("shot", 4)]
     if topo["lock_k"]:
         w += [("lockshot", 16), ("eject", 7), ("eject_all", 3), ("lockleak", 4)]
     names = [a for a, _ in w]
@@ -794,20 +984,26 @@ def gen_case(rng, tier, i, profile=None):
         elif a == "lockleak":
             acts.append([dt, a, rng.choice([1, 1, 2])])
         elif a == "request":
-            acts.append([dt, a, "plunger"])
+            acts.append([dt, a, rng.choice(["plunger", "plunger", "plunger", "trough"])])
+        elif a == "shot":
+            acts.append([dt, a, "plunger", rng.choice([150, 300, 500])])
         elif a in ("eject", "eject_all"):
             acts.append([dt, a, "lock"])
         else:
             acts.append([dt, a])
     faults = {}
-    for d, key in (("trough", "t_trough"), ("plunger", "t_plunger"), ("lock", "t_lock")):
+    for d, key in (("trough", "t_trough"), ("plunger", "t_plunger"), ("lock", "t_lock"), ("outhole", "t_outhole")):
         to_pf = d == "plunger" or (d == "lock" and topo["lock_to"] == "playfield")
         faults[d] = [gen_fault(rng, topo[key], to_pf, profile, topo["miss_extra"])
                      for _ in range(rng.choice([4, 8, 16]))]
         if d != "trough" and rng.random() < 0.15:
             faults[d].insert(rng.randrange(3), ["double", 50, 300, rng.choice([100, 300, -1])])
     claims = [1 if rng.random() < 0.6 else 0 for _ in range(8)]
-    return {"topo": topo, "script": acts, "faults": faults, "claims": claims, "profile": profile}
+    holds = {}
+    if rng.random() < 0.3:
+        for d in ("trough", "plunger", "lock", "outhole"):
+            holds[d] = [rng.choice([0, 0, 0, 700, 1500, 3000, 6000]) for _ in range(6)]
+    return {"topo": topo, "script": acts, "faults": faults, "claims": claims, "profile": profile, "holds": holds}
 
 
 def shrink_case(case):
@@ -823,7 +1019,11 @@ def shrink_case(case):
     for i in range(len(sc)):
         if sc[i][0] not in (0, 1000):
             yield dict(case, script=sc[:i] + [[1000] + sc[i][1:]] + sc[i + 1:])
+    if any(x for v in case.get("holds", {}).values() for x in v):
+        yield dict(case, holds={})
     t = case["topo"]
+    if t.get("outhole") and not t.get("confirm", {}).get("outhole"):
+        yield dict(case, topo=dict(t, outhole=0))
     if t.get("lock_k", 0) and not any(a[1] in ("lockshot", "eject", "eject_all") for a in sc):
         yield dict(case, topo=dict(t, lock_k=0))
     if t["trough_n"] > 2 and t["balls"] < t["trough_n"]:
@@ -856,6 +1056,7 @@ def parse_log(log, devs):
             continue
         raw.append(it)
     out = []
+    out_batch = []
     i = 0
     n = len(raw)
 
@@ -880,12 +1081,31 @@ def parse_log(log, devs):
         k = it[0]
         if k == "T":
             out.append(("Snap", it[1], "T", it[2], it[3]))
+            out_batch[:] = []
             i += 1
         elif k == "H":
             out.append(("Snap", it[2], "H", False, None))
             i += 1
         elif k == "C":
             out.append(("Pulse", it[1]))
+            i += 1
+        elif k == "XA":
+            out.append(("ExtWait", it[1]))
+            i += 1
+        elif k == "X":
+            out.append(("Confirmed", it[1], it[2]))
+            i += 1
+        elif k == "L":
+            # IncomingBallsHandler._run takes ALL timed-out balls off the list before it reports the first one:
+            # the reports of one batch see the same list length
+            if not (out_batch and out_batch[0] == (it[1], it[3])):
+                j = i
+                while j < n and raw[j][0] != "T":
+                    if raw[j][0] == "L" and raw[j][1] == it[1] and raw[j][3] == it[3]:
+                        out.append(("IncTimeout", it[1], raw[j][2]))
+                    j += 1
+                out_batch[:] = [(it[1], it[3])]
+            out.append(("IncLost", it[1], it[2]))
             i += 1
         elif k == "S":
             out.append(("S",) + tuple(it[1:4]))
@@ -987,6 +1207,26 @@ def room_after_others(info):
     return info["room"] + info.get("unregistered_other", 0)
 
 
+def starved_requests(case, out):
+    """the world is quiet: no device may sit on a queued ball request while an idle device directly upstream has an
+    available ball (balldevice_balls_available must reach every device with a queued request)"""
+    fin = out.get("final")
+    if not fin or out.get("error") or out.get("sim_error") or fin["truth"]["transit"]:
+        return []
+    devs = device_table(case["topo"])
+    snap, truth = fin["snap"], fin["truth"]
+    fails = []
+    for d, v in devs.items():
+        if snap[d][5] <= 0 or snap[d][3] not in ("idle", "waiting_for_ball"):
+            continue
+        for s_ in v["sources"]:
+            if snap[s_][2] > 0 and truth["dev"][s_] > 0 and snap[s_][3] == "idle" and fin["idle"][s_]:
+                fails.append({"sig": "servable-request-queued", "what": "%s has %d queued requests while the idle "
+                              "%s has %d available balls" % (d, snap[d][5], s_, snap[s_][2])})
+                break
+    return fails[:1]
+
+
 def oracle_c04(case, out):
     fails = []
     devs = device_table(case["topo"])
@@ -1030,21 +1270,28 @@ def oracle_c04(case, out):
                         (d, balls, counted, v["cap"], where))
             if snap["playfield"][0] < 0:
                 unknown = total - snap["known"]
-                tdev = it[3]["dev"] if k in ("T", "H") else None
-                flights = it[3]["transit"] if k in ("T", "H") else []
+                tdev = it[3]["dev"] if k in ("T", "H") else it[3].get("dev")
+                flights = it[3]["transit"]
                 # MPF still believes a ball on its way to a device which has physically bounced off onto the playfield
-                phantom = tdev is not None and any(
-                    snap[d][3] in ("ball_left", "failed_confirm") and devs[d]["target"] != "playfield" and
-                    not any(x[0] == d for x in flights) for d in devs)
+                # (each such ball makes playfield.balls one too low until ball_missing_timeout books it back)
+                phantom = 0 if tdev is None else sum(
+                    1 for d in devs if snap[d][3] in ("ball_left", "failed_confirm") and
+                    devs[d]["target"] != "playfield" and not any(x[0] == d for x in flights))
                 behind = tdev is not None and any(
                     snap[d][0] - (1 if snap[d][3] in ("ball_left", "failed_confirm") else 0) > tdev[d] for d in devs)
-                if snap["playfield"][0] == -1 and (snap["playfield"][2] > 0 or unknown > 0 or behind or phantom):
+                # ... or still expects a ball at a device that is not on its way any more (it arrived and was taken
+                # for the device's own ball falling back: 'Assuming a ball returned'); booked back by the timeout
+                ghost = 0 if tdev is None else sum(
+                    max(0, snap[d][4] - sum(1 for x in flights if x[1] == d)) for d in devs)
+                # every cause accounts for one ball that is physically on the playfield before MPF has booked it
+                allow = max(phantom, ghost) + max(0, snap["playfield"][2]) + max(0, unknown) + (1 if behind else 0)
+                if allow > 0 and snap["playfield"][0] >= -allow:
                     # a capture from the playfield is booked before the eject confirmation (or the new-ball
                     # detection) that the very same capture triggers
                     add("playfield-balls-negative-transient",
-                        "playfield.balls == -1 %s (a ball was captured before the pending eject to the playfield "
-                        "was confirmed / before it was known to exist / before its loss from an idle device was "
-                        "booked)" % where)
+                        "playfield.balls == %d %s (a ball was captured before the pending eject to the playfield "
+                        "was confirmed / before it was known to exist / before its loss from an idle device or from "
+                        "an eject it bounced out of was booked)" % (snap["playfield"][0], where))
                 else:
                     add("playfield-balls-negative", "playfield.balls == %d %s" % (snap["playfield"][0], where))
         if k == "T" and it[2]:
@@ -1065,13 +1312,23 @@ def oracle_c04(case, out):
                     (it[4] / 1e6, sum(snap[d][1] for d in devs) + snap["playfield"][0], snap["known"]))
         if k == "C":
             info = it[3]
-            if info["room"] is not None and info["room"] <= 0:
+            if info["room"] is not None and info["room"] <= 0 and info.get("superseded_pf") and \
+                    devs[info["target"]]["cap"] - snap[info["target"]][0] - snap[info["target"]][4] > 0:
+                # a ball from the playfield dropped into the target and was taken for the expected ball (nothing can tell
+                # them apart): the expected ball is confirmed while it is still on its way, the next one is fired
+                add("pulse-after-playfield-ball-taken-for-expected-ball",
+                    "coil of %s pulsed towards %s while an earlier ball is still on its way there: a ball that rolled in "
+                    "from the playfield was matched with it, so MPF counts it as arrived" % (it[1], info["target"]))
+            elif info["room"] is not None and info["room"] <= 0:
                 t = info["target"]
                 # (a source that pulses in ball_left -- entrance counter -- has already registered its own ball)
                 own_reg = 1 if info["state"] == "ball_left" else 0
                 believed = devs[t]["cap"] - snap[t][0] - (snap[t][4] - own_reg)
                 own = any(x[:2] == [it[1], t] for x in info.get("transit", []))
                 gave_up = bool(info.get("own_given_up"))
+                n_own = sum(1 for x in info.get("transit", []) if x[:2] == [it[1], t]) if gave_up else 0
+                oth = info.get("others_given_up", 0)
+                unreg = info.get("unregistered_other", 0)
                 if believed > 0 and own and info["room_without_own"] > 0 and gave_up:
                     # MPF has given up on an earlier ball of this very eject (took a foreign ball that sat in the source
                     # during failed_confirm for the returned one, or booked it as lost after ball_missing_timeout)
@@ -1086,12 +1343,25 @@ def oracle_c04(case, out):
                     add("pulse-while-confirmed-ball-falls-back",
                         "coil of %s pulsed towards %s while the ball %s ejected is falling back into it; its eject "
                         "had been confirmed by another ball's activity, so MPF counts %s as empty" % (it[1], t, t, t))
+                elif believed > 0 and oth > 0 and info["room"] + n_own + oth + unreg > 0:
+                    # the same give-up as above, but the late ball belongs to ANOTHER source of the target: its entry
+                    # was taken off the target's list, the source that was waiting for room fires into its place
+                    add("pulse-while-other-sources-late-ball-in-transit",
+                        "coil of %s pulsed towards %s whose last free place is taken by a ball another source ejected "
+                        "earlier and that is still on its way (MPF believes it returned to its source or is lost and "
+                        "no longer expects it at %s)" % (it[1], t, t))
                 elif believed > 0 and room_after_others(info) > 0:
                     # two sources share the target: both passed wait_for_ready_to_receive before either ball was
                     # registered as incoming ("TODO: block one spot in target device to prevent double eject")
                     add("pulse-race-two-sources",
                         "coil of %s pulsed towards %s whose last free place is taken by a ball another source has just "
                         "fired (not yet registered as incoming at %s when %s checked for room)" % (it[1], t, t, it[1]))
+                elif believed > 0 and own and gave_up and info["room"] + n_own + unreg > 0:
+                    # both at once: the own late ball MPF has given up on AND the other source firing in the same ms
+                    add("pulse-while-own-late-ball-in-transit",
+                        "coil of %s pulsed towards %s although a ball it ejected earlier is still on its way there "
+                        "(MPF believes it returned or is lost) while another source fired in the same instant" %
+                        (it[1], t))
                 else:
                     add("pulse-towards-full-device", "coil of %s pulsed while its target %s has no room "
                         "(MPF's own numbers: capacity %d, counted %d, incoming %d)" %
@@ -1100,4 +1370,6 @@ def oracle_c04(case, out):
             if info["state"] not in okstates:     # (an entrance counter assumes "left" 10 ms after the command,
                                                   #  the driver may delay the pulse up to eject_coil_max_wait_ms)
                 add("pulse-outside-eject", "coil of %s pulsed in state %s" % (it[1], info["state"]))
+    # supplement (clause of C05, same harness): a queued request is served once a ball for it is available
+    fails += starved_requests(case, out)
     return fails
